@@ -116,6 +116,9 @@ struct KeyState {
 pub fn run(sc: &Scenario, replay: Option<Vec<String>>) -> Outcome {
     let mut out = Outcome::default();
     crate::common::set_sites(&["lfu_"]);
+    // the final phases run on this thread: its read-buffer stripe must not
+    // depend on the OS thread id
+    qbice_storage::verif::set_thread_slot(0);
     PIN_PROBES.store(0, Ordering::SeqCst);
     let single = sc.threads.len() == 1;
     let lfu: Arc<TinyLFU<u32, Arc<Cell>, PinListener>> = Arc::new(TinyLFU::new(
@@ -362,7 +365,6 @@ pub fn run(sc: &Scenario, replay: Option<Vec<String>>) -> Outcome {
     // keys and settle again: window + main are full, the pinned region is
     // empty, so at most capacity + 1 entries may be resident.
     let fin2 = std::panic::catch_unwind(std::panic::AssertUnwindSafe(|| {
-        qbice_storage::verif::set_thread_slot(0);
         let settle = || {
             for _ in 0..34 {
                 lfu.unpin(u32::MAX);
